@@ -293,16 +293,18 @@ func (svr *Service) login() (conn net.Conn, connector Connector, err error) {
 		return
 	}
 
+	// The deadline has to cover the write as well: with TLS the handshake runs inside the first write and waits
+	// for the server's answer. A server that accepts the connection and then stays silent must not hold us for ever.
+	_ = conn.SetDeadline(time.Now().Add(10 * time.Second))
 	if err = msg.WriteMsg(conn, loginMsg); err != nil {
 		return
 	}
 
 	var loginRespMsg msg.LoginResp
-	_ = conn.SetReadDeadline(time.Now().Add(10 * time.Second))
 	if err = msg.ReadMsgInto(conn, &loginRespMsg); err != nil {
 		return
 	}
-	_ = conn.SetReadDeadline(time.Time{})
+	_ = conn.SetDeadline(time.Time{})
 
 	if loginRespMsg.Error != "" {
 		err = fmt.Errorf("%s", loginRespMsg.Error)
